@@ -1166,3 +1166,211 @@ Proof.
   eapply store_rel_rext; eassumption.
 Qed.
 
+
+Print Assumptions compile_correct6.
+Print Assumptions eval_fragment6.
+
+(* ============================================================ non-vacuity *)
+Ltac in_cases6 H := repeat (destruct H as [<-|H]; [|]); try contradiction.
+
+Definition n6 : text := S_ "n".
+Definition u6 : text := S_ "u".
+Definition inc6 : text := S_ "inc".
+Definition T6 : expr6 := WConst (CBool true).
+Definition F6 : expr6 := WConst (CBool false).
+Definition vB6 (b : bool) : rval6 := R6Base (RDatum (CBool b)).
+Definition vVoid6 : rval6 := R6Base (RDatum CVoid).
+
+Lemma wf6_bool b sc : wf6 (WConst (CBool b)) sc.
+Proof. cbn [wf6]. split; [reflexivity|]. destruct b; cbn; tauto. Qed.
+
+(* (a)  ((lambda (n) ((lambda (u) n) (set! n #t))) #f)  — set! on a parameter the running lambda
+   owns (direct slot), in operand position; observed afterwards through a closure that captured n
+   (pointer slot): #t *)
+Definition get6 : expr6 := WLam [u6] [n6] [WVar n6].
+Definition exa6_body : expr6 := WApp get6 [WSet n6 T6].
+Definition exa6 : expr6 := WApp (WLam [n6] [] [exa6_body]) [F6].
+
+Lemma exa6_hypotheses :
+  wf6 exa6 [] /\ minv (vm_empty 8192) /\ genv_rel6 [] rho6_empty (vm_empty 8192) /\ store_rel [] [] (vm_empty 8192) /\
+  ref_eval6 bsem_not [] [] [] rho6_empty exa6 (vB6 true) [vB6 true; vVoid6] rho6_empty.
+Proof.
+  split.
+  { apply wf6_app. split; [reflexivity|]. split; [|repeat constructor; apply wf6_bool].
+    apply wf6_lam. split; [discriminate|]. split; [intros x Hx; in_cases6 Hx; reflexivity|].
+    split; [intros b Hb; in_cases6 Hb; reflexivity|]. split; [vm_compute; reflexivity|].
+    split; [intros x Hx; cbn in Hx; in_cases6 Hx; left; left; reflexivity|].
+    constructor; [|constructor]. apply wf6_app. split; [reflexivity|]. split.
+    - apply wf6_lam. split; [discriminate|]. split; [intros x Hx; in_cases6 Hx; reflexivity|].
+      split; [intros b Hb; in_cases6 Hb; reflexivity|]. split; [vm_compute; reflexivity|].
+      split; [intros x Hx; cbn in Hx; in_cases6 Hx; right; right; left; reflexivity|].
+      constructor; [reflexivity|constructor].
+    - constructor; [|constructor]. cbn [wf6]. split; [reflexivity|apply wf6_bool]. }
+  split; [apply minv_vm_empty; reflexivity|]. split; [apply genv_rel6_empty|]. split; [apply store_rel_nil|].
+  unfold exa6. eapply (R6_app_closure bsem_not _ _ _ _ _ _ [vB6 false] _ _ [n6] [] _ [] _ _ [vB6 true] [] (vB6 true)).
+  - eapply R6_cons; [apply R6_const|apply R6_nil].
+  - apply (R6_lam bsem_not [] [] _ _ [n6] [] _ []). constructor.
+  - reflexivity.
+  - (* the body, n at location 0 *)
+    eapply R6_cons; [|apply R6_nil]. unfold exa6_body.
+    eapply (R6_app_closure bsem_not _ _ _ _ _ _ [vVoid6] _ _ [u6] [n6] _ [0%nat] _ _ [vB6 true] [] (vB6 true)).
+    + eapply R6_cons; [|apply R6_nil].
+      eapply (R6_setl bsem_not _ _ _ _ n6 T6 _ _ _ 0 0%nat); [reflexivity|reflexivity|apply R6_const|cbn; lia].
+    + unfold get6. apply (R6_lam bsem_not [n6] [0%nat] _ _ [u6] [n6] _ [0%nat]).
+      constructor; [exists 0; split; reflexivity|constructor].
+    + reflexivity.
+    + (* n is slot 1 of the inner activation, still location 0 *)
+      eapply R6_cons; [|apply R6_nil]. eapply (R6_local bsem_not _ _ _ _ n6 1 0%nat); reflexivity.
+    + reflexivity.
+  - reflexivity.
+Qed.
+
+Lemma exa6_run :
+  transform_expr TRANSFORM_FUEL (vm_empty 8192) (cell_of6 exa6) = Ok (cell_of6 exa6) /\
+  match eval Model.Builtins.other_builtin 300 (cell_of6 exa6) (vm_empty 8192) with
+  | ROk (Done c) s' => c = CBool true /\ sp s' = 0 /\ bp s' = 0 /\ ep s' = USIZE_MAX
+  | _ => False
+  end.
+Proof. vm_compute. repeat split. Qed.
+
+(* (b) THE COUNTER  ((lambda (n) ((lambda (inc) (inc) ... (inc)) (lambda () (set! n (if n #f #t)) n))) #f):
+   every call of the thunk toggles the captured n (a pointer slot of the thunk's activation
+   environment, the direct slot 0 of the outer activation) and returns it *)
+Definition thunk_bodies6 : list expr6 := [WSet n6 (WIf (WVar n6) F6 T6); WVar n6].
+Definition thunk6 : expr6 := WLam [] [n6] thunk_bodies6.
+Definition thunk_val6 : rval6 := R6Clo [] [n6] thunk_bodies6 [0%nat].
+Definition call6 : expr6 := WApp (WVar inc6) [].
+Definition counter6_of (calls : list expr6) : expr6 :=
+  WApp (WLam [n6] [] [WApp (WLam [inc6] [] calls) [thunk6]]) [F6].
+Definition counter6 : expr6 := counter6_of [call6; call6].
+Definition counter6_1 : expr6 := counter6_of [call6].
+Definition counter6_3 : expr6 := counter6_of [call6; call6; call6].
+
+(* the concrete syntax *)
+Definition counter6_src : text :=
+  S_ "((lambda (n) ((lambda (inc) (inc) (inc)) (lambda () (set! n (if n #f #t)) n))) #f)"%string.
+Lemma counter6_parse : match parse_text counter6_src with Ok (d, _) => d = cell_of6 counter6 | _ => False end.
+Proof. vm_compute. reflexivity. Qed.
+
+Lemma thunk6_wf : wf6 thunk6 [n6].
+Proof.
+  apply wf6_lam. split; [discriminate|]. split; [intros x []|].
+  split; [intros b Hb; in_cases6 Hb; reflexivity|]. split; [vm_compute; reflexivity|].
+  split; [intros x Hx; cbn in Hx; in_cases6 Hx; right; right; left; reflexivity|].
+  constructor; [|constructor; [reflexivity|constructor]].
+  cbn [wf6]. split; [reflexivity|]. split; [reflexivity|]. split; apply wf6_bool.
+Qed.
+Lemma call6_wf : wf6 call6 [inc6].
+Proof. apply wf6_app. split; [reflexivity|]. split; [reflexivity|constructor]. Qed.
+
+Ltac counter6_wf_tac :=
+  apply wf6_app; split; [reflexivity|]; split; [|repeat constructor; apply wf6_bool];
+  apply wf6_lam; split; [discriminate|]; split; [intros x Hx; in_cases6 Hx; reflexivity|];
+  split; [intros b Hb; in_cases6 Hb; reflexivity|]; split; [vm_compute; reflexivity|];
+  split; [intros x Hx; cbn in Hx; in_cases6 Hx; first [left; left; reflexivity | right; left; reflexivity]|];
+  constructor; [|constructor];
+  apply wf6_app; split; [reflexivity|]; split; [|constructor; [apply thunk6_wf|constructor]];
+  apply wf6_lam; split; [discriminate|]; split; [intros x Hx; in_cases6 Hx; reflexivity|];
+  split; [intros b Hb; in_cases6 Hb; reflexivity|]; split; [vm_compute; reflexivity|];
+  split; [intros x Hx; cbn in Hx; in_cases6 Hx; left; left; reflexivity|];
+  repeat (constructor; [apply call6_wf|]); constructor.
+
+Lemma counter6_wf : wf6 counter6 [].
+Proof. counter6_wf_tac. Qed.
+Lemma counter6_1_wf : wf6 counter6_1 [].
+Proof. counter6_wf_tac. Qed.
+Lemma counter6_3_wf : wf6 counter6_3 [].
+Proof. counter6_wf_tac. Qed.
+
+(* one call of the thunk: n (location 0) is toggled, the new content is the value *)
+Lemma call6_ref b :
+  ref_eval6 bsem_not [inc6] [1%nat] [vB6 b; thunk_val6] rho6_empty call6
+            (vB6 (negb b)) [vB6 (negb b); thunk_val6] rho6_empty.
+Proof.
+  unfold call6.
+  eapply (R6_app_closure bsem_not _ _ _ _ _ _ [] _ _ [] [n6] thunk_bodies6 [0%nat] _ _
+            [vVoid6; vB6 (negb b)] [vVoid6] (vB6 (negb b))).
+  - apply R6_nil.
+  - eapply (R6_local bsem_not _ _ _ _ inc6 0 1%nat); reflexivity.
+  - reflexivity.
+  - (* the two body expressions under the scope [n], n = slot 0 -> location 0 *)
+    eapply R6_cons; [|eapply R6_cons; [|apply R6_nil]].
+    + eapply (R6_setl bsem_not _ _ _ _ n6 _ (vB6 (negb b)) [vB6 b; thunk_val6] rho6_empty 0 0%nat);
+        [reflexivity|reflexivity| |cbn; lia].
+      destruct b.
+      * eapply R6_if_t; [eapply (R6_local bsem_not _ _ _ _ n6 0 0%nat); reflexivity|reflexivity|apply R6_const].
+      * eapply R6_if_f; [eapply (R6_local bsem_not _ _ _ _ n6 0 0%nat); reflexivity|reflexivity|apply R6_const].
+    + eapply (R6_local bsem_not _ _ _ _ n6 0 0%nat); reflexivity.
+  - reflexivity.
+Qed.
+
+(* the counter, for any sequence of calls with a derivation from the store [#f; thunk] *)
+Lemma counter6_of_ref calls vs pre r b :
+  ref_evals6 bsem_not [inc6] [1%nat] [vB6 false; thunk_val6] rho6_empty calls vs [vB6 b; thunk_val6] rho6_empty ->
+  vs = pre ++ [r] ->
+  ref_eval6 bsem_not [] [] [] rho6_empty (counter6_of calls) r [vB6 b; thunk_val6] rho6_empty.
+Proof.
+  intros HR Hvs. unfold counter6_of.
+  eapply (R6_app_closure bsem_not _ _ _ _ _ _ [vB6 false] _ _ [n6] [] _ [] _ _ [r] [] r).
+  - eapply R6_cons; [apply R6_const|apply R6_nil].
+  - apply (R6_lam bsem_not [] [] _ _ [n6] [] _ []). constructor.
+  - reflexivity.
+  - (* n at location 0 *)
+    eapply R6_cons; [|apply R6_nil].
+    eapply (R6_app_closure bsem_not _ _ _ _ _ _ [thunk_val6] _ _ [inc6] [] calls [] _ _ vs pre r).
+    + eapply R6_cons; [|apply R6_nil].
+      apply (R6_lam bsem_not [n6] [0%nat] _ _ [] [n6] thunk_bodies6 [0%nat]).
+      constructor; [exists 0; split; reflexivity|constructor].
+    + apply (R6_lam bsem_not [n6] [0%nat] _ _ [inc6] [] calls []). constructor.
+    + reflexivity.
+    + (* inc at location 1 holds the thunk *) exact HR.
+    + exact Hvs.
+  - reflexivity.
+Qed.
+
+Lemma counter6_hypotheses :
+  wf6 counter6 [] /\ minv (vm_empty 8192) /\ genv_rel6 [] rho6_empty (vm_empty 8192) /\ store_rel [] [] (vm_empty 8192) /\
+  ref_eval6 bsem_not [] [] [] rho6_empty counter6 (vB6 false) [vB6 false; thunk_val6] rho6_empty.
+Proof.
+  split; [exact counter6_wf|]. split; [apply minv_vm_empty; reflexivity|]. split; [apply genv_rel6_empty|].
+  split; [apply store_rel_nil|].
+  apply (counter6_of_ref [call6; call6] [vB6 true; vB6 false] [vB6 true] (vB6 false) false); [|reflexivity].
+  eapply R6_cons; [apply (call6_ref false)|]. eapply R6_cons; [apply (call6_ref true)|apply R6_nil].
+Qed.
+(* one call: #t; three calls: #t *)
+Lemma counter6_1_ref :
+  ref_eval6 bsem_not [] [] [] rho6_empty counter6_1 (vB6 true) [vB6 true; thunk_val6] rho6_empty.
+Proof.
+  apply (counter6_of_ref [call6] [vB6 true] [] (vB6 true) true); [|reflexivity].
+  eapply R6_cons; [apply (call6_ref false)|apply R6_nil].
+Qed.
+Lemma counter6_3_ref :
+  ref_eval6 bsem_not [] [] [] rho6_empty counter6_3 (vB6 true) [vB6 true; thunk_val6] rho6_empty.
+Proof.
+  apply (counter6_of_ref [call6; call6; call6] [vB6 true; vB6 false; vB6 true] [vB6 true; vB6 false] (vB6 true) true); [|reflexivity].
+  eapply R6_cons; [apply (call6_ref false)|]. eapply R6_cons; [apply (call6_ref true)|].
+  eapply R6_cons; [apply (call6_ref false)|apply R6_nil].
+Qed.
+
+(* ... and the model evaluates the three forms to #f, #t, #t with the registers of the start *)
+Lemma counter6_run :
+  transform_expr TRANSFORM_FUEL (vm_empty 8192) (cell_of6 counter6) = Ok (cell_of6 counter6) /\
+  match eval Model.Builtins.other_builtin 300 (cell_of6 counter6) (vm_empty 8192) with
+  | ROk (Done c) s' => c = CBool false /\ sp s' = 0 /\ bp s' = 0 /\ ep s' = USIZE_MAX
+  | _ => False
+  end.
+Proof. vm_compute. repeat split. Qed.
+Lemma counter6_1_run :
+  transform_expr TRANSFORM_FUEL (vm_empty 8192) (cell_of6 counter6_1) = Ok (cell_of6 counter6_1) /\
+  match eval Model.Builtins.other_builtin 300 (cell_of6 counter6_1) (vm_empty 8192) with
+  | ROk (Done c) s' => c = CBool true /\ sp s' = 0 /\ bp s' = 0 /\ ep s' = USIZE_MAX
+  | _ => False
+  end.
+Proof. vm_compute. repeat split. Qed.
+Lemma counter6_3_run :
+  transform_expr TRANSFORM_FUEL (vm_empty 8192) (cell_of6 counter6_3) = Ok (cell_of6 counter6_3) /\
+  match eval Model.Builtins.other_builtin 300 (cell_of6 counter6_3) (vm_empty 8192) with
+  | ROk (Done c) s' => c = CBool true /\ sp s' = 0 /\ bp s' = 0 /\ ep s' = USIZE_MAX
+  | _ => False
+  end.
+Proof. vm_compute. repeat split. Qed.
